@@ -31,6 +31,7 @@ type recvScn struct {
 	Users    []wirekit.IDName `json:"users"`
 	Groups   []wirekit.IDName `json:"groups"`
 	Judge    []string         `json:"judge"` // aspects the property under check constrains (echoed for RecvTrace)
+	Repeat   bool             `json:"repeat"` // run the same session a second time against the resulting destination (C12)
 	Sub      string           `json:"sub"`   // daemon receiver: destination argument after module-name stripping ("" = "/", the module root)
 }
 
@@ -70,6 +71,8 @@ type recvObs struct {
 	Extra    []string        `json:"extra"` // paths in the final tree outside the universe (e.g. leftover temp files)
 	Lit      int64           `json:"lit"`   // literal bytes the reference sender transmitted
 	Judge    []string        `json:"judge"`
+	Result2  string          `json:"result2"` // repeat: the immediately repeated session
+	Reqs2    []recvReq       `json:"reqs2"`   // ... and what the receiver requested in it
 	Scn      json.RawMessage `json:"scn,omitempty"`
 }
 
@@ -164,49 +167,56 @@ func recvHandler(w *workerCtx, line []byte) (any, error) {
 	for _, p := range s.Prot {
 		args = append(args, "--exclude="+p)
 	}
-	var p *drv.RecvPeer
-	var err error
-	if s.Recv == "daemon" {
-		srv, err := drv.NewServer(nil, nil)
-		if err != nil {
-			return nil, err
-		}
-		mod := &rsyncd.Module{Name: "m", Path: dest, Writable: true}
-		sargs := append([]string{"--server"}, args...)
-		sub := s.Sub
-		if sub == "" {
-			sub = "/"
-		}
-		sargs = append(sargs, ".", sub)
-		p = drv.StartServerReceiver(srv, mod, sargs, -1, -1, nil)
-		err = p.ClientHandshake(s.Opts["del"])
-		if err != nil {
-			obs.Result, obs.Err = "err", "handshake: "+err.Error()
-		}
-	} else {
-		p, err = drv.StartClientReceiver(args, dest, nil, -1, -1, nil)
-		if err != nil {
-			return nil, err
-		}
-		if err = p.ServerHandshake(int32(1000 + s.ID)); err != nil {
-			obs.Result, obs.Err = "err", "handshake: "+err.Error()
-		}
-	}
-	defer p.End.Close()
-	if obs.Result == "" {
-		err = recvSession(p, &s, fl, lo, sorted, obs)
-		select {
-		case derr := <-p.Done:
-			if derr != nil {
-				obs.Result, obs.Err = "err", derr.Error()
-			} else if err != nil {
-				obs.Result, obs.Err = "err", "reference sender: "+err.Error()
-			} else {
-				obs.Result = "ok"
+	// one complete session of the reference sender against the real receiver
+	session := func(o *recvObs, seedOff int) error {
+		var p *drv.RecvPeer
+		var err error
+		if s.Recv == "daemon" {
+			srv, err := drv.NewServer(nil, nil)
+			if err != nil {
+				return err
 			}
-		case <-idleAfter(30 * time.Second):
-			obs.Result, obs.Err = "err", fmt.Sprintf("receiver did not finish (sender side: %v)", err)
+			mod := &rsyncd.Module{Name: "m", Path: dest, Writable: true}
+			sargs := append([]string{"--server"}, args...)
+			sub := s.Sub
+			if sub == "" {
+				sub = "/"
+			}
+			sargs = append(sargs, ".", sub)
+			p = drv.StartServerReceiver(srv, mod, sargs, -1, -1, nil)
+			err = p.ClientHandshake(s.Opts["del"])
+			if err != nil {
+				o.Result, o.Err = "err", "handshake: "+err.Error()
+			}
+		} else {
+			p, err = drv.StartClientReceiver(args, dest, nil, -1, -1, nil)
+			if err != nil {
+				return err
+			}
+			if err = p.ServerHandshake(int32(1000 + s.ID + seedOff)); err != nil {
+				o.Result, o.Err = "err", "handshake: "+err.Error()
+			}
 		}
+		defer p.End.Close()
+		if o.Result == "" {
+			err = recvSession(p, &s, fl, lo, sorted, o)
+			select {
+			case derr := <-p.Done:
+				if derr != nil {
+					o.Result, o.Err = "err", derr.Error()
+				} else if err != nil {
+					o.Result, o.Err = "err", "reference sender: "+err.Error()
+				} else {
+					o.Result = "ok"
+				}
+			case <-idleAfter(30 * time.Second):
+				o.Result, o.Err = "err", fmt.Sprintf("receiver did not finish (sender side: %v)", err)
+			}
+		}
+		return nil
+	}
+	if err := session(obs, 0); err != nil {
+		return nil, err
 	}
 	final, err := fstree.Snapshot(dest, known)
 	if err != nil {
@@ -222,6 +232,15 @@ func recvHandler(w *workerCtx, line []byte) (any, error) {
 		} else {
 			obs.Extra = append(obs.Extra, n.P)
 		}
+	}
+	obs.Reqs2 = []recvReq{}
+	if s.Repeat && obs.Result == "ok" {
+		// C12: the same sync again, immediately: what does the receiver ask for now?
+		second := &recvObs{Reqs: []recvReq{}}
+		if err := session(second, 5000); err != nil {
+			return nil, err
+		}
+		obs.Result2, obs.Reqs2 = second.Result, second.Reqs
 	}
 	fstree.MakeWritable(dest)
 	return obs, nil
